@@ -111,9 +111,10 @@ func newHonest(t *testing.T, sc *Scenario, id int) *hnode {
 // ---------------------------------------------------------------- the run
 
 type roundLog struct {
-	obs     [][2]any // (byz bool, rows []int) for VALID observations
-	agreed  []int
-	reports [][]int
+	obs      [][2]any // (byz bool, rows []int) for VALID observations
+	agreed   []int
+	reports  [][]int
+	inflight []string // work ids in flight on every honest node when the round started
 }
 
 type runLog struct {
@@ -164,6 +165,10 @@ func runScenario(t *testing.T, sc *Scenario) {
 		}
 	}
 	lg := &runLog{rowIdx: map[string]int{}, checked: map[int]map[int]bool{}}
+	// acceptedBy[wid] = honest nodes that accepted a report containing wid and have not been restarted since;
+	// cleared on any transmit event batch and when the lockout window may have passed
+	acceptedBy := map[string]map[int]bool{}
+	acceptedAt := map[string]time.Time{}
 	var prev []byte
 	var seq uint64
 	var lastHonestObs [][]byte
@@ -226,6 +231,9 @@ func runScenario(t *testing.T, sc *Scenario) {
 					nh := newHonest(t, sc, i)
 					nh.checked = h.checked // the pipeline log is the harness' ghost, it survives
 					nodes[i] = nh
+					for _, set := range acceptedBy {
+						delete(set, i)
+					}
 				}
 			}
 			time.Sleep(time.Second)
@@ -246,6 +254,7 @@ func runScenario(t *testing.T, sc *Scenario) {
 			for _, h := range nodes {
 				h.nd.Events.Set(events)
 			}
+			acceptedBy = map[string]map[int]bool{}
 			time.Sleep(3 * time.Second)
 			synctest.Wait()
 			snapshot()
@@ -333,6 +342,20 @@ func runScenario(t *testing.T, sc *Scenario) {
 			var oc ocr2keepers.AutomationOutcome
 			_ = json.Unmarshal(out, &oc)
 			rl := roundLog{agreed: lg.rowsOf(oc.AgreedPerformables)}
+			for w, set := range acceptedBy {
+				all := len(set) > 0
+				for i := range nodes {
+					all = all && set[i]
+				}
+				hasEvent := false
+				for _, ev := range events {
+					hasEvent = hasEvent || ev.WorkID == w
+				}
+				if all && time.Since(acceptedAt[w]) < 80*time.Second && !hasEvent {
+					rl.inflight = append(rl.inflight, w)
+				}
+			}
+			sort.Strings(rl.inflight)
 			sc.Agreed += len(oc.AgreedPerformables)
 			for _, ao := range aobs {
 				if leader.nd.Plugin.ValidateObservation(context.Background(), outctx, nil, ao) != nil {
@@ -363,6 +386,13 @@ func runScenario(t *testing.T, sc *Scenario) {
 					ok, err := h.nd.Plugin.ShouldAcceptAttestedReport(context.Background(), seq, rp.ReportWithInfo)
 					if err == nil && ok {
 						lg.accepts = append(lg.accepts, [2]any{i, pr.rows})
+						for _, r := range res {
+							if acceptedBy[r.WorkID] == nil {
+								acceptedBy[r.WorkID] = map[int]bool{}
+								acceptedAt[r.WorkID] = time.Now()
+							}
+							acceptedBy[r.WorkID][i] = true
+						}
 					}
 				}
 			}
@@ -411,7 +441,9 @@ func (l *runLog) term(sc *Scenario) string {
 	var rds []string
 	for _, rd := range l.rounds {
 		obs := CoqList(rd.obs, func(o [2]any) string { return fmt.Sprintf("(%s, %s)", CoqBool(o[0].(bool)), natList(o[1].([]int))) })
-		rds = append(rds, fmt.Sprintf("mkNRound %s %s %s", obs, natList(rd.agreed), CoqList(rd.reports, natList)))
+		// in-flight work ids are interned through the rows' table: make sure each has an id
+		infl := CoqList(rd.inflight, func(w string) string { return fmt.Sprint(wid.ID(w)) })
+		rds = append(rds, fmt.Sprintf("mkNRound %s %s %s %s", obs, natList(rd.agreed), CoqList(rd.reports, natList), infl))
 	}
 	pair := func(p [2]any) string { return fmt.Sprintf("(%s, %s)", CoqNat(p[0].(int)), natList(p[1].([]int))) }
 	tr := CoqList(l.transmit, func(p [2]any) string {
